@@ -1,6 +1,7 @@
 import LitexModel.Wishbone.InterconnectSoc
 import LitexProofs.Wishbone.Interconnect
 import LitexProofs.Soc.AcceptedDisjoint
+import LitexProofs.Soc.Finalize
 /-
   Helper lemmas for the address-map glue of `SoCBusHandler` (C06): `check_regions_overlap` as computed
   (`checkRegionsOverlap`) against C13's `anyOverlap`, and the C06 region predicate `regionDec` against C13's
@@ -199,5 +200,59 @@ theorem portAdr_none (c : SocRCfg) (i a : Nat) (h : c.remaps[i]? = none ∨ c.re
     c.portAdr i a = a := by
   unfold SocRCfg.portAdr
   rcases h with h | h <;> rw [h]
+
+/-! ### Whole build histories (C13's handler invariant carried through `glueRun`) -/
+
+/-- Every accepted call of a build script preserves C13's handler invariant. -/
+theorem glueRun_inv : ∀ (ops : List GlueOp) (s : BusH Nat) (k : Nat) (s' : BusH Nat),
+    BusH.Inv s → glueRun s k ops = .inr s' → BusH.Inv s' := by
+  intro ops
+  induction ops with
+  | nil => intro s k s' hi h; simp [glueRun] at h; subst h; exact hi
+  | cons op ops ih =>
+    intro s k s' hi h
+    unfold glueRun at h
+    cases ha : s.apply (op.toBusOp k) with
+    | error e => rw [ha] at h; cases h
+    | ok s1 => rw [ha] at h; exact ih s1 (k + 1) s' (BusH.apply_inv hi ha) h
+
+theorem glueRun_widths : ∀ (ops : List GlueOp) (s : BusH Nat) (k : Nat) (s' : BusH Nat),
+    glueRun s k ops = .inr s' → s'.aw = s.aw ∧ s'.dw = s.dw := by
+  intro ops
+  induction ops with
+  | nil => intro s k s' h; simp [glueRun] at h; subst h; exact ⟨rfl, rfl⟩
+  | cons op ops ih =>
+    intro s k s' h
+    unfold glueRun at h
+    cases ha : s.apply (op.toBusOp k) with
+    | error e => rw [ha] at h; cases h
+    | ok s1 =>
+      rw [ha] at h
+      have h1 := BusH.apply_widths ha
+      have h2 := ih s1 (k + 1) s' h
+      exact ⟨h2.1.trans h1.1, h2.2.trans h1.2⟩
+
+/-- The regions handed to the interconnect (one per slave, in slave order) are pairwise accepted. -/
+theorem slaveRegions_pairwise_ok {s : BusH Nat} (hi : BusH.Inv s) :
+    s.slaveRegions.Pairwise (fun p q => overlapPair p.2 q.2 = false) := by
+  unfold BusH.slaveRegions
+  have hnd : s.slaves.Pairwise (· ≠ ·) := hi.slaves_nodup
+  refine List.Pairwise.filterMap _ ?_ hnd
+  intro a a' hne b hb b' hb'
+  cases hra : s.regionOf a with
+  | none => simp [hra] at hb
+  | some r =>
+    cases hra' : s.regionOf a' with
+    | none => simp [hra'] at hb'
+    | some r' =>
+      simp [hra] at hb
+      simp [hra'] at hb'
+      subst hb hb'
+      exact BusH.regions_pair_ok hi (BusH.regionOf_some hra) (BusH.regionOf_some hra') hne
+
+theorem slaveRegions_accepted {s : BusH Nat} (hi : BusH.Inv s) :
+    checkRegionsOverlap false (s.slaveRegions.map (·.2)) = none := by
+  rw [checkRegionsOverlap_none_iff, anyOverlap_eq_false_iff, List.pairwise_map]
+  exact slaveRegions_pairwise_ok hi
 
 end Litex.Wishbone
